@@ -3,4 +3,4 @@ From Common Require Import Bytes Drv.
 From C36 Require Import Model.
 Extraction "model.ml" drv_b2n drv_n2b drv_z_of_n drv_n_of_z drv_nat_of_n drv_n_of_nat
   sim0 step set_change_units set_change_units_prefix valid db0 crash_points all_ok_monotone
-  scenario_points scenario_valid run_fixed run_prefix.
+  scenario_points scenario_valid run_fixed run_prefix predict single_pending.
